@@ -1,5 +1,6 @@
 import NflowsModel.Audit.Tool
 import NflowsModel.Properties.C12
 import NflowsModel.Properties.C12E
+import NflowsModel.Properties.C12R
 
 #audit_namespace Properties.C12
